@@ -23,7 +23,8 @@ theorem beginIter_nf {c : Cfg} {t : PThread} (h : (beginIter c t).early = false)
 theorem consOK_begin {c c' : Cfg} {t : PThread} (h : ConsOK c t) (hsh : c'.sh = c.sh)
     (hc : t.cpc = .boot ∨ t.cpc = .submit) :
     ConsOK c' { t with q := { t.q with pc := .bAcq }, cpc := .iter } := by
-  refine ⟨fun k hk => by simp at hk, fun hp => by simp at hp, fun hp => by simp at hp, ?_, fun hp => by simp at hp, ?_⟩
+  refine ⟨fun k hk => by simp at hk, fun hp => by simp at hp, fun hp => by simp at hp, ?_, fun hp => by simp at hp, ?_,
+    fun _ => h.live (hc.imp id Or.inl)⟩
   · intro r hr; rw [hsh]; exact h.ended r hr
   · intro hn; rw [hsh]; exact h.noStop hn
 
@@ -64,7 +65,7 @@ theorem clean_cboot0 {c : Cfg} {tid : Tid} {t : PThread} (hb : Base c) (hc : Cle
     (fun h => by simp [hp] at h) (fun _ => consOK_begin hco rfl (Or.inl hcp))
 
 theorem clean_cboot {c : Cfg} {tid : Tid} {t : PThread} (hb : Base c) (hc : Clean F inputs0 c)
-    (ht : c.ths[tid]? = some t) (hp : t.isProd = false) :
+    (ht : c.ths[tid]? = some t) (hp : t.isProd = false) (hcp : t.cpc = .boot) :
     Clean F inputs0 (c.setTh tid { t with cpc := .submit }) := by
   have h0 := nf_tid0 hb.static ht hp
   subst h0
@@ -72,7 +73,8 @@ theorem clean_cboot {c : Cfg} {tid : Tid} {t : PThread} (hb : Base c) (hc : Clea
   refine clean_same hc ht rfl rfl rfl rfl rfl rfl rfl rfl rfl rfl rfl rfl (fun _ => rfl)
     (fun _ => rfl) (fun _ => rfl) rfl (by simp [itemsOf, handItems, hp])
     (fun h => by simp [hp] at h) (fun _ => ?_)
-  exact ⟨hco.naErr, hco.armed, hco.raise, hco.ended, fun h => by simp at h, hco.noStop⟩
+  exact ⟨hco.naErr, hco.armed, hco.raise, hco.ended, fun h => by simp at h, hco.noStop,
+    fun _ => hco.live (Or.inl hcp)⟩
 
 theorem clean_csubmit {c : Cfg} {tid : Tid} {t : PThread} (hb : Base c) (hc : Clean F inputs0 c)
     (hn' : NF { c with nsub := c.nsub + 1,
@@ -93,7 +95,7 @@ theorem clean_csubmit {c : Cfg} {tid : Tid} {t : PThread} (hb : Base c) (hc : Cl
   · simp only [hge, if_false]
     refine clean_same hc ht rfl rfl rfl rfl rfl rfl rfl rfl rfl rfl rfl rfl (fun _ => rfl)
       (fun _ => rfl) (fun _ => rfl) rfl rfl (fun h => by simp [hp] at h) (fun _ => ?_)
-    exact ⟨hco.naErr, hco.armed, hco.raise, hco.ended, hco.phase, hco.noStop⟩
+    exact ⟨hco.naErr, hco.armed, hco.raise, hco.ended, hco.phase, hco.noStop, hco.live⟩
 
 theorem clean_cshutdown {c : Cfg} {tid : Tid} {t : PThread} (hb : Base c) (hc : Clean F inputs0 c)
     (ht : c.ths[tid]? = some t) (hp : t.isProd = false) (hcp : t.cpc = .shutdown) :
@@ -104,6 +106,7 @@ theorem clean_cshutdown {c : Cfg} {tid : Tid} {t : PThread} (hb : Base c) (hc : 
   refine clean_same hc ht rfl rfl rfl rfl rfl rfl rfl rfl rfl rfl rfl rfl (fun _ => rfl)
     (fun _ => rfl) (fun _ => rfl) rfl (by simp [itemsOf, handItems, hp])
     (fun h => by simp [hp] at h) (fun _ => ?_)
-  exact ⟨hco.naErr, hco.armed, hco.raise, hco.ended, fun _ => hco.phase (Or.inr (Or.inl hcp)), hco.noStop⟩
+  exact ⟨hco.naErr, hco.armed, hco.raise, hco.ended, fun _ => hco.phase (Or.inr (Or.inl hcp)), hco.noStop,
+    fun h => by simp at h⟩
 
 end MlModel.Piter
